@@ -25,7 +25,10 @@ RULE = ('scenario families: hostile mailbox names x (CREATE LIST LSUB STATUS SEL
 
 HEADER_VALUES = [b'plain', b'a\rb', b'a\nb', b'a\r\n b', b'x\x00y', b'caf\xc3\xa9', b'\xff\xfe', b'"quoted" \\ back', b'(paren', b'{5}', b'brace}', b'x' * 90, b'=?utf-8?q?h=C3=A9llo?=',
                  b'=?utf-8?b?4pyT?= ok', b'a@b.c', b'"A \\"B\\"" <a@b.c>', b'<id@host>', b'Mon, 1 Jan 2001 10:00:00 +0000', b'garbage date', b'', b' ', b'\t', b'a;b="c\rd"', b'%s%n',
-                 b'NIL', b'\\', b'"', b'a' + b'\xe2\x80\xa8' + b'b', b'text/plain; charset="x\ry"; name="n\x00m"', b'multipart/mixed; boundary="b\r1"', b'inline; filename="f\\"g"']
+                 b'NIL', b'\\', b'"', b'a' + b'\xe2\x80\xa8' + b'b', b'text/plain; charset="x\ry"; name="n\x00m"', b'multipart/mixed; boundary="b\r1"', b'inline; filename="f\\"g"',
+                 # repetition: whatever walks a header value must not do it by recursion (Subject prefixes, comments, groups, id lists)
+                 b're: ' * 1500 + b'x', b'[t] ' * 1500 + b'x', b'Fwd: Re: ' * 800, b'<a@b> ' * 1500, b'(' * 1500, b'(a' * 700 + b')' * 700, b'a@b, ' * 1500, b'g:' * 1200 + b';',
+                 b'"' + b'\\"' * 1500 + b'"', b'=?utf-8?q?x?= ' * 1200]
 HEADER_NAMES = gen.HEADER_NAMES + [b'Sender', b'Reply-To', b'Bcc', b'Content-ID', b'Content-Description', b'Content-Language', b'Content-Location', b'Content-MD5', b'References']
 FETCH_ATTRS = [b'ENVELOPE', b'BODYSTRUCTURE', b'BODY', b'FLAGS', b'INTERNALDATE', b'RFC822.SIZE', b'UID', b'BODY.PEEK[HEADER.FIELDS (SUBJECT FROM TO DATE)]', b'BODY.PEEK[HEADER.FIELDS.NOT (X-A)]',
                b'BODY.PEEK[HEADER]', b'BODY.PEEK[TEXT]', b'BODY.PEEK[]<0.10>', b'BODY.PEEK[1]', b'BODY.PEEK[1.MIME]', b'BODY.PEEK[2.1]', b'BODY.PEEK[1.HEADER]', b'BINARY.PEEK[1]', b'BINARY.SIZE[1]',
